@@ -130,11 +130,16 @@ impl RelatedEntities {
         );
 
         // Remove all matching edges of this type.
+        // The graph is undirected, so edges of the reverse relation
+        // (when the target also relates to the source) are skipped.
         self.remove_buffer.extend(
             self.graph
                 .edges_connecting(source_node, target_node)
                 .filter(|e| *e.weight() == type_id)
-                .map(|e| e.id()),
+                .map(|e| e.id())
+                .filter(|&edge| {
+                    self.graph.edge_endpoints(edge) == Some((source_node, target_node))
+                }),
         );
 
         for edge in self.remove_buffer.drain(..) {
